@@ -380,9 +380,11 @@ Proof.
         eapply post_bind; [apply eval_indexes_ok; eauto|]. intros [path m2] [G2 Hp]. cbn [fst snd] in *.
         pose proof G2 as (W2 & (T1 & T2 & T3 & T4 & T5) & L2).
         unfold here. rewrite T1, S1, Hs. cbn [bind].
+        destruct (lookup_var x (m_scopes m2)) as [c2|] eqn:El2; [|apply post_rt_err].
+        pose proof (lookup_ok code _ _ _ _ (w_sc code m2 W2) El2) as Hc2.
         eapply post_bind.
         { apply assign_path_ok; [destruct path; [discriminate|discriminate]|apply (w_h code m2 W2)| |].
-          - eapply vok_mono; [exact L2|exact Hc].
+          - exact Hc2.
           - eapply vok_mono; [exact L2|exact Hv]. }
         intros m3 (h' & -> & Hh' & Hle'). cbn beta.
         eapply Qi_after; [eapply good_trans; [exact G1|exact G2]|].
